@@ -459,7 +459,7 @@ func verif_GetWorkConn(ctl *Control) {
 // the connection is closed as well.
 //
 //verif:contract (*~/server.Service).handleConnection
-//verif:props C17 C16 C04 C11 C15
+//verif:props C17 C16 C04 C11 C15 C08
 func verif_handleConnection(svr *Service, ctx context.Context, conn net.Conn, internal bool) {
 	verif.ResetEvents()
 	svr.handleConnection(ctx, conn, internal)
